@@ -197,7 +197,7 @@ def check_config(config: dict) -> None:
     n_workers = config["runner"]["workers"]
     sh_moves = config["simulation"]["shooting_moves"]
     n_sh_moves = len(sh_moves)
-    intf_cap = config["simulation"]["tis_set"].get("interface_cap", False)
+    intf_cap = config["simulation"]["tis_set"].get("interface_cap", None)
     quantis = config["simulation"]["tis_set"].get("quantis", False)
     lambda_minus_one = config["simulation"]["tis_set"].get(
         "lambda_minus_one", False
@@ -231,14 +231,22 @@ def check_config(config: dict) -> None:
             f"N_interfaces {n_ens} > N_shooting_moves {n_sh_moves}!"
         )
 
-    if intf_cap and intf_cap > intf[-1]:
-        raise TOMLConfigError(
-            f"Interface_cap {intf_cap} > interface[-1]={intf[-1]}"
-        )
-    if intf_cap and intf_cap < intf[0]:
-        raise TOMLConfigError(
-            f"Interface_cap {intf_cap} < interface[-2]={intf[-2]}"
-        )
+    if intf_cap is not None and intf_cap is not False:
+        if intf_cap > intf[-1]:
+            raise TOMLConfigError(
+                f"Interface_cap {intf_cap} > interface[-1]={intf[-1]}"
+            )
+        if intf_cap < intf[0]:
+            raise TOMLConfigError(
+                f"Interface_cap {intf_cap} < interface[0]={intf[0]}"
+            )
+        # a wire fencing ensemble needs room between its interface and the cap
+        for i, move in enumerate(sh_moves[1:n_ens]):
+            if move == "wf" and intf_cap <= intf[i]:
+                raise TOMLConfigError(
+                    f"Interface_cap {intf_cap} <= interface[{i}]={intf[i]}"
+                    + f" of the wf ensemble {i + 1}"
+                )
 
     # engine checks
     unique_engines = []
